@@ -152,6 +152,9 @@ class ContentElement:
       if self.parent() is not None:
         raise RuntimeError("Element must be removed from parent first")
 
+      if self._doc is not None and self._doc.get_body() is self:
+        self._doc.set_body(None)
+
       self.set_region(None)
 
     else:
